@@ -12,23 +12,17 @@ CONSTANTS
   ZTCode = {10000,20067,30115,40153,50186,300601,530821,10743847}
   ZDCode = {30309,120703,3003705}
   Delivery = "by_prior"
-  Passes = "user_table"
-  QNum = {0,9,11,12,13,15,24,112}
+  Passes = "second_blind"
+  QNum = {9,14}
   QShift = 12
   QDen = {1,4}
-  ENum = {0,6,9,12,14}
+  ENum = {6,12,14}
   EShift = 12
-  SNum = {1,3,25}
+  SNum = {3}
   SDen = {1,10}
   Companies = {"alone", "default", "user"}
-  Export = TRUE
+  Export = FALSE
 INVARIANT ZOk
-INVARIANT DeliveryInv
-INVARIANT RouteInv
-INVARIANT DefaultSpaceInv
 INVARIANT UserPriorInForceInv
-INVARIANT DefaultOnlyWhenNoneInv
-INVARIANT OwnerInv
-INVARIANT FitsInv
 CONSTRAINT Emit
 CHECK_DEADLOCK FALSE
